@@ -41,6 +41,13 @@ type graphCase struct {
 }
 
 func replay(sub string, raw json.RawMessage) ([]h.Failure, error) {
+	if sub == "owndef" {
+		var c ownDefCase
+		if err := json.Unmarshal(raw, &c); err != nil {
+			return nil, err
+		}
+		return checkOwnDef(c), nil
+	}
 	var c graphCase
 	if err := json.Unmarshal(raw, &c); err != nil {
 		return nil, err
@@ -532,6 +539,83 @@ func TestRandomGraphs(t *testing.T) {
 		}
 		key, _ := json.Marshal(c)
 		h.R.Case(t, "random", string(key), c, labels, nt, checkGraph(c))
+	})
+}
+
+type ownDefCase struct {
+	Main    string            `json:"main"`
+	Modules map[string]string `json:"modules"`
+	Names   []string          `json:"names"`
+	Probe   string            `json:"probe"`
+}
+
+func checkOwnDef(c ownDefCase) []h.Failure {
+	o := h.Run(c.Main, h.Opts{Modules: c.Modules})
+	want := "[" + c.Probe + "-共，" + c.Probe + "-共型]"
+	var fails []h.Failure
+	if o.Kind != h.KValue || o.ValText != want {
+		desc := "main:\n" + c.Main
+		for _, m := range c.Names {
+			desc += "--- module " + m + ":\n" + c.Modules[m]
+		}
+		fails = append(fails, h.Failure{Sig: "modules/own-definition-replaced-by-import", Msg: fmt.Sprintf("%s\n（%s用） must use the definitions of module %s itself: expected %s, got %s", desc, c.Probe, c.Probe, want, o.Short())})
+	}
+	for _, m := range c.Names {
+		wantLoad := "载入 [" + m + "-共，" + m + "-共型]"
+		if strings.Contains(c.Modules[m], "载入") && o.Kind == h.KValue {
+			found := false
+			for _, ln := range o.Trace {
+				if ln == wantLoad {
+					found = true
+				}
+			}
+			if !found && len(fails) == 0 {
+				fails = append(fails, h.Failure{Sig: "modules/own-definition-while-loading", Msg: fmt.Sprintf("module %s did not display %q while loading; trace %v", m, wantLoad, o.Trace)})
+			}
+		}
+	}
+	return fails
+}
+
+// TestOwnDefinitionVsImport - modules along a chain that all define a method and a type of the
+// same names and import each other (as a whole or selectively): a method of a module uses the
+// module's OWN definitions, also when it is called by an importer after the body has ended
+func TestOwnDefinitionVsImport(t *testing.T) {
+	rapid.Check(t, func(t *rapid.T) {
+		n := rapid.IntRange(2, 4).Draw(t, "chain")
+		names := []string{"甲", "乙", "丙", "丁"}[:n]
+		mods := map[string]string{}
+		for i, m := range names {
+			var b strings.Builder
+			if i+1 < n {
+				switch rapid.IntRange(0, 2).Draw(t, "import-"+m) {
+				case 0:
+					b.WriteString("导入“" + names[i+1] + "”\n")
+				case 1:
+					b.WriteString("导入“" + names[i+1] + "”之共法\n")
+				default:
+					b.WriteString("导入“" + names[i+1] + "”之共型、共法\n")
+				}
+			}
+			b.WriteString("如何共法？\n    输出“" + m + "-共”\n")
+			b.WriteString("定义共型：\n    其名 = “" + m + "-共型”\n")
+			b.WriteString("如何" + m + "用？\n    输出【（共法），（新建共型）之名】\n")
+			if rapid.Bool().Draw(t, "body-use-"+m) {
+				b.WriteString("（显示：“载入”、（" + m + "用））\n")
+			}
+			mods[m] = b.String()
+		}
+		k := rapid.IntRange(0, n-1).Draw(t, "probe-module")
+		var main strings.Builder
+		for i := 0; i <= k; i++ {
+			// main imports the probed module (selectively: only its 用 method) and every module before it
+			main.WriteString("导入“" + names[i] + "”之" + names[i] + "用\n")
+		}
+		main.WriteString("输出（" + names[k] + "用）\n")
+		c := ownDefCase{Main: main.String(), Modules: mods, Names: names, Probe: names[k]}
+		fails := checkOwnDef(c)
+		key, _ := json.Marshal(c)
+		h.R.Case(t, "owndef", string(key), c, []string{fmt.Sprintf("chain-%d", n)}, true, fails)
 	})
 }
 
